@@ -259,19 +259,28 @@ type c01Worker struct {
 }
 
 type c01Interp struct {
-	start   time.Time
-	brks    []*c01Brk
-	workers []*c01Worker
-	classes map[string]bool
-	fail    string
+	start    time.Time
+	brks     []*c01Brk
+	workers  []*c01Worker
+	classes  map[string]bool
+	fail     string
+	onWorker bool
 }
 
 func (in *c01Interp) now() time.Duration { return time.Since(in.start) }
 
+// on runs f on worker goroutine g and waits for it. Every op of a case is
+// executed as a whole on the goroutine it names; nested calls run in place.
 func (in *c01Interp) on(g int, f func()) {
+	if in.onWorker {
+		f()
+		return
+	}
+	in.onWorker = true
 	w := in.workers[g%len(in.workers)]
 	w.in <- f
 	<-w.done
+	in.onWorker = false
 }
 
 // ensure creates the google-style breaker behind a target when the op about to
@@ -592,7 +601,7 @@ func c01InterpSeq(t *testing.T, c c01Case) (v kit.Verdict) {
 			kit.Wait()
 		}()
 		usedG := map[int]bool{}
-		for i, o := range c.Ops {
+		step := func(i int, o c01Op) {
 			what := fmt.Sprintf("op %d %+v", i, o)
 			br, useHandle, nop := in.route(o)
 			idx := o.T % len(in.brks)
@@ -679,7 +688,7 @@ func c01InterpSeq(t *testing.T, c c01Case) (v kit.Verdict) {
 			case "resolve":
 				if len(br.pend) == 0 {
 					in.classes["resolve-nothing-pending"] = true
-					continue
+					return
 				}
 				j := o.I % len(br.pend)
 				p := br.pend[j]
@@ -785,7 +794,7 @@ func c01InterpSeq(t *testing.T, c c01Case) (v kit.Verdict) {
 				}
 			case "nobrk":
 				if br.direct {
-					continue
+					return
 				}
 				NoBreakerFor(br.name)
 				br.nop = true
@@ -793,6 +802,13 @@ func c01InterpSeq(t *testing.T, c c01Case) (v kit.Verdict) {
 				if !in.checkWindows(what, "nobrk") {
 					return
 				}
+			}
+		}
+		for i, o := range c.Ops {
+			i, o := i, o
+			in.on(o.G, func() { step(i, o) })
+			if in.fail != "" {
+				return
 			}
 		}
 		if len(usedG) > 1 {
